@@ -297,7 +297,9 @@ def multiline_forms():
             for pre, post in ((b'', b'\ny=1\n'), (b'x=1 ', b''), (b'x=1\n', b'y=2')):
                 out.append(pre + b'--' + op + body + cl + post)
     for q in (b'"', b"'"):
-        for body in (b'a\\\nb', b'a\\\r\nb', b'\\\n', b'a\\z  \n  b', b'a\\nb', b'\\' + q, b'a\\\nb\\\nc'):
+        for body in (b'a\\\nb', b'a\\\r\nb', b'\\\n', b'a\\z  \n  b', b'a\\nb', b'\\' + q, b'a\\\nb\\\nc',
+                     # \z skips whole blank lines: the string stays open across empty chunks
+                     b'a\\z\n\n  b', b'a\\z\n\n\n\nb', b'a\\z\r\n\r\n b', b'\\z\n\n', b'a\\\n\\z\n\nb', b'a\\z \n\t\n\n b\\z\n\n'):
             for pre, post in ((b'x=', b'\ny=1\n'), (b'', b''), (b'x=', b' y=2\nz=3')):
                 out.append(pre + q + body + q + post)
     # positions after different line ends
